@@ -578,7 +578,7 @@ M("c01-redis-unmark-wrong-member", ["C01"], [(RBRK, "        pipe.zrem(self.proc
 M("c01-rabbit-nack-requeues", ["C01"], [(QBRK, "await self._channel.basic_nack(delivery_tag, requeue=False)  # will trigger dlx", "await self._channel.basic_nack(delivery_tag)")], None)
 M("c01-rabbit-reject-drops", ["C01", "C03"], [(QBRK, "await self._channel.basic_reject(delivery_tag, requeue=True)", "await self._channel.basic_reject(delivery_tag, requeue=False)")], None)
 M("c01-rabbit-requeue-publish-first", ["C01", "C14"], [(QBRK, "        await self.ack(key)\n        await self.enqueue(key, payload, params)", "        await self.enqueue(key, payload, params)\n        await self.ack(key)")], None)
-M("c01-inmem-consume-add-after-sleep", ["C01", "C14"], [(MCONS, "        self._queue.processing.add(msg)\n\n        await asyncio.sleep(0)\n", "        await asyncio.sleep(0)\n        self._queue.processing.add(msg)\n\n")], None)
+M("c01-inmem-consume-add-after-sleep", ["C01", "C14"], [(MCONS, "        self._queue.processing.add(msg)\n", "        await asyncio.sleep(0)\n        self._queue.processing.add(msg)\n")], None)
 M("c01-outside-writer", ["C01"], [("repid/queue.py", '''    async def flush(self) -> None:
         await self._conn.message_broker.queue_flush(self.name)''', '''    async def flush(self) -> None:
         broker = self._conn.message_broker
@@ -659,3 +659,17 @@ R("norm-r-message-broker-alias", ["C16", "C02", "C13"], [("repid/message.py", ''
 
         self.__read_only = True
 ''')])
+
+# ----------------------------------------------------------------------------------------------- C14 fix reverted (in-memory finish ownership)
+M("c14-fix-reverted-finish-drains-all", ["C14"], [("repid/connections/in_memory/consumer.py", '''        for msg in [m for m, holder in self._queue.holders.items() if holder is self]:
+            del self._queue.holders[msg]
+            if msg in self._queue.processing:
+                self._queue.processing.remove(msg)
+                self._queue.simple.put_nowait(msg)
+''', '''        while self._queue.processing:
+            self._queue.simple.put_nowait(self._queue.processing.pop())
+''')], "R-C14-FINISH-OWN")
+M("c14-holder-not-recorded", ["C14"], [("repid/connections/in_memory/consumer.py", '''        self._queue.holders[msg] = self
+''', '''        pass
+''')], "R-C14-FINISH-OWN")
+M("c14-finish-without-owner-filter", ["C14"], [("repid/connections/in_memory/consumer.py", '''        for msg in [m for m, holder in self._queue.holders.items() if holder is self]:''', '''        for msg in [m for m, holder in self._queue.holders.items()]:''')], "R-C14-FINISH-OWN")
